@@ -35,9 +35,12 @@ def rand_cfg(rng, cyclic=False):
 
 class C01(Property):
     pid = 'C01'
+    _cond_cache = {}
+    COND_MAX = 1e11
     workers = 8
     tolerance = RTOL
-    required_theorems = ['C01_exact_derivative', 'C01_fwd_eq_rev', 'C01_unique', 'C01_scaled_entry']
+    required_theorems = ['C01_exact_derivative', 'C01_fwd_eq_rev', 'C01_unique', 'C01_scaled_entry',
+                         'C01_gs_fixed_point', 'C01_runonce_triangular']
     rule = ("cases: random models from harness/genmodel.py (polynomial explicit components in nested "
             "groups, promotions/connect with src_indices chains, units, auto-IVC) x random design "
             "variables/responses (indices, units, scaler/adder/ref/ref0) x configuration (mode fwd/rev/"
@@ -46,7 +49,9 @@ class C01(Property):
             "driver's exact rational Jacobian and with an exact dual-number oracle. Non-trivial: the "
             "exact Jacobian has a nonzero entry; distinct by (seed, configuration).")
     assumptions = ["comparison tolerance 1e-8 relative to max(1,|J|) (double rounding through solves); "
-                   "1e-6 when an iterative linear or nonlinear solver is part of the configuration",
+                   "1e-6 when an iterative linear or nonlinear solver is part of the configuration; "
+                   "widened to 1e-14 x cond(dR/du) and not compared at all above cond 1e11 (chained "
+                   "polynomial components can make the exact system numerically singular; seen: 1e30)",
                    "models are polynomial with rational data so that the exact Jacobian is computable"]
     trusted_extra = ["NumPy indexing for src_indices and desvar/response indices",
                      "scipy/LAPACK linear solves inside OpenMDAO's solvers (results only compared)"]
@@ -169,13 +174,34 @@ class C01(Property):
             cs.extend([tot if case['cfg']['driver_scaling'] else fac] * len(pos))
         return [[Jmodel[i][l] * rs[i] / cs[l] for l in range(len(cs))] for i in range(len(rs))]
 
+    def _cond(self, case):
+        """2-norm condition number of the exact linearised system (doubles).  Chained polynomial
+        components with unit conversions can make it astronomically large; what a solver of the real
+        code (LU, GMRES, block relaxation) can then deliver is bounded by cond x eps, not by the
+        property."""
+        key = case['gen_seed']
+        c = self._cond_cache.get(key)
+        if c is None:
+            md, _ = self._md(case)
+            try:
+                A = np.array([[float(x) for x in r] for r in gm.exact_system_matrix(md)])
+                c = float(np.linalg.cond(A)) if A.size else 1.0
+            except Exception:
+                c = 1.0
+            if not np.isfinite(c):
+                c = 1e300
+            self._cond_cache[key] = c
+        return c
+
     def _tol(self, case):
         cfg = case['cfg']
         iterative = {'lbgs', 'lbjac', 'krylov'}
         if cfg.get('linear') in iterative or cfg.get('sub_linear') in iterative \
                 or cfg.get('nonlinear'):
-            return 1e-6      # iterative solves stop at their own tolerance
-        return RTOL
+            tol = 1e-6      # iterative solves stop at their own tolerance
+        else:
+            tol = RTOL
+        return max(tol, 1e-14 * self._cond(case))
 
     def _diff(self, got, exp, tol=RTOL):
         if len(got) != len(exp) or (exp and len(got[0]) != len(exp[0])):
@@ -201,6 +227,8 @@ class C01(Property):
                 # stopped elsewhere is not a C01 matter (C09 covers the solver contract)
                 return None
             return {'what': 'acyclic model: outputs after run_model differ from the exact state'}
+        if self._cond(case) > self.COND_MAX:
+            return None     # numerically singular linearised system: no solver is held to it
         exp = self._expected(case, gm.exact_totals_linsolve(md, voi))
         d = self._diff(impl['J'], exp, self._tol(case))
         if d is not None and impl.get('krylov_reported_failure') and \
@@ -219,6 +247,8 @@ class C01(Property):
                 'driver_scaling': cfg['driver_scaling']}
 
     def nontrivial(self, case, impl):
+        if self._cond(case) > self.COND_MAX:
+            return False
         md, voi = self._md(case)
         return bool(impl.get('converged_to_exact')) and \
             any(x != 0 for r in gm.exact_totals_linsolve(md, voi) for x in r)
@@ -231,6 +261,9 @@ class C01(Property):
              'converged' if impl.get('converged_to_exact') else 'not_converged_to_exact']
         if any(c['kind'] == 'implicit' for c in md['comps']):
             b.append('has_implicit_comp')
+        cn = self._cond(case)
+        b.append('cond>1e11(not compared)' if cn > self.COND_MAX else
+                 'cond 1e6..1e11' if cn > 1e6 else 'cond<=1e6')
         for k in ('mode', 'linear', 'nonlinear', 'sub_linear', 'jac', 'partials', 'return_format',
                   'driver_scaling'):
             b.append('%s=%s' % (k, cfg[k]))
@@ -257,11 +290,19 @@ class C01(Property):
         # the two exact computations (Lean linearised solve, Python dual numbers) must coincide
         if JL != gm.exact_totals_linsolve(md, voi):
             raise Infra('Lean exact Jacobian differs from the dual-number oracle')
+        # feed-forward models of explicit components: the linearised system is triangular in
+        # execution order and one run-once pass (fwd on A, rev on A^T) is the exact solve
+        if not md.get('cyclic') and all(c['kind'] != 'implicit' for c in md['comps']):
+            if not (a.get('tri') and a.get('runonce_fwd') and a.get('runonce_rev')):
+                raise Infra('Lean run-once sweep: tri=%s fwd=%s rev=%s on a feed-forward model' % (
+                    a.get('tri'), a.get('runonce_fwd'), a.get('runonce_rev')))
         if impl.get('error') == 'AnalysisError':
             return None
         if 'error' in impl:
             return 'implementation raised %s; the model returns a Jacobian' % impl['error']
         if not impl.get('converged_to_exact'):
+            return None
+        if self._cond(case) > self.COND_MAX:
             return None
         d = self._diff(impl['J'], self._expected(case, JL), self._tol(case))
         return None if d is None else 'compute_totals vs model: ' + d
